@@ -249,6 +249,9 @@ func (dlv *Delivery) Calculate() error {
 	// Try to set Regime if not already prepared from the supplier's tax ID
 	if dlv.Regime.IsEmpty() {
 		dlv.SetRegime(partyTaxCountry(dlv.Supplier))
+	} else if rd := dlv.RegimeDef(); rd != nil {
+		// an alternative country code is replaced by the regime's own
+		dlv.SetRegime(rd.Country)
 	}
 	dlv.Normalize(dlv.normalizers())
 	return calculate(dlv)
